@@ -302,6 +302,61 @@ def many_keys_stream(ch: core.Check, n: int) -> None:
             dcache.template_cache = None
 
 
+def inherit_stream(ch: core.Check, r, rounds: int) -> None:
+    """Component classes related by inheritance: a subclass that overrides the static `template` renders its own
+    template, one that does not renders its parent's — under every cache size and every render order (whatever is
+    remembered per class must not be read through the MRO by a subclass with another template)."""
+    import re as _re
+
+    from django.template import Context, Template
+    from django.test import override_settings
+
+    import django_components.cache as dcache
+    from django_components import Component, registry
+
+    for rnd in range(rounds):
+        for size in (0, 1, 2, 128):
+            with override_settings(COMPONENTS={"template_cache_size": size, "autodiscover": False}):
+                dcache.template_cache = None
+                names, classes, src = [], [], []
+                try:
+                    for i in range(4):
+                        parent = r.choice([None] + classes) if classes else None
+                        override = parent is None or r.random() < 0.7
+                        body: dict = {"get_context_data": (lambda self, x=None: {"x": x})}
+                        if override:
+                            body["template"] = f"[{rnd}.{i}:{{{{ x }}}}]"   # no angle brackets: the library adds id attributes to HTML root elements
+                        cls = type(f"C18Inh{rnd}x{i}", (parent or Component,), body)
+                        nm = f"c18inh{i}"
+                        registry.register(nm, cls)
+                        names.append(nm)
+                        classes.append(cls)
+                        src.append(i if override else src[classes.index(parent)])
+                    seq = [r.randrange(4) for _ in range(10)]
+                    for pos, j in enumerate(seq):
+                        out = Template("{% component '" + names[j] + "' x=val / %}").render(Context({"val": j * 7}))
+                        ch.count("inherit", 1, 1)
+                        plain = _re.sub(r"<!--.*?-->", "", out)
+                        want = f"[{rnd}.{src[j]}:{j * 7}]"
+                        if plain != want:
+                            ch.violation(
+                                "impl-violates-spec", "inherit",
+                                {"template_cache_size": size, "render_sequence": seq[: pos + 1], "at": j,
+                                 "bases": [c.__mro__[1].__name__ for c in classes],
+                                 "overrides_template": ["template" in c.__dict__ for c in classes]},
+                                impl=plain, spec=f"cached_transparent: compiling the class's template afresh gives {want}",
+                            )
+                            return
+                        ch.nontrivial(("inherit", size, tuple(src), tuple(seq[: pos + 1])))
+                finally:
+                    for nm in names:
+                        try:
+                            registry.unregister(nm)
+                        except Exception:
+                            pass
+                    dcache.template_cache = None
+
+
 def component_stream(ch: core.Check, r) -> None:
     from django.template import Context, Template
     from django.test import override_settings
@@ -469,6 +524,7 @@ def run(tier: str) -> int:
     ch.cov["extracted_template_cache_size_default"] = ch.cov.get("extracted", {}).get("template_cache_size")
 
     component_stream(ch, core.rng(PROP, "component"))
+    inherit_stream(ch, core.rng(PROP, "inherit"), 6 if tier == "quick" else 40)
     n_many = 20000 if tier == "quick" else 120000
     many_keys_stream(ch, n_many)
     ch.cov["many_keys"] = n_many
